@@ -185,7 +185,11 @@ Record xsim := {
 Definition with_st (s : xsim) (st : xstate) : xsim :=
   {| xs_node := xs_node s; xs_st := st; xs_all := xs_all s; xs_crashed := xs_crashed s |}.
 
-(* Start(): catch up block by block with the node's chain (the first failure stops the start) *)
+(* Start(): catch up block by block with the node's chain (the first failure stops the start); repaired:
+   when there was nothing to catch up by height and the node's best block is not the stored tip, that
+   block goes through processConnectedBlock (a reorganisation to an equal or lower height while the
+   wallet was down).  The fast-forward over all but the last 2000 blocks when no wallet is ready is
+   not modelled (it equals processing: no wallet is ready). *)
 Fixpoint catchup (fx : fixes) (p : params) (n : node) (st : xstate) (fuel : nat) : xres xstate :=
   match fuel with
   | O => XOk st
@@ -199,6 +203,21 @@ Fixpoint catchup (fx : fixes) (p : params) (n : node) (st : xstate) (fuel : nat)
           | XPanic => XPanic
           end
       end
+  end.
+
+Definition start_sync (fx : fixes) (p : params) (n : node) (st : xstate) : xres xstate :=
+  let sync_h := fst (tip (x_w st)) in
+  let index_h := Z.of_nat (length n) - 1 in
+  match catchup fx p n st (length n) with
+  | XOk st1 =>
+      if f_start_reorg fx && (index_h <=? sync_h) then
+        match node_at n index_h with
+        | Some b => if (b_id b =? snd (tip (x_w st1)))%N then XOk st1 else xprocess fx p n st1 b
+        | None => XOk st1
+        end
+      else XOk st1
+  | XErr => XErr
+  | XPanic => XPanic
   end.
 
 Definition xstep (fx : fixes) (p : params) (B cap : Z) (s : xsim) (e : xevent) : xsim :=
@@ -215,7 +234,7 @@ Definition xstep (fx : fixes) (p : params) (B cap : Z) (s : xsim) (e : xevent) :
   | XNewWallet w pass => match new_wallet (xs_st s) w pass with Some st' => with_st s st' | None => s end
   | XNewAddr sh w => with_st s (new_address (xs_st s) sh w)
   | XImportStart w pass shs => match import_start (xs_st s) w pass shs with Some st' => with_st s st' | None => s end
-  | XBatch w => with_st s (fst (import_batch p B (xs_node s) (xs_st s) w))
+  | XBatch w => with_st s (fst (import_batch fx p B (xs_node s) (xs_st s) w))
   | XRemoveReq w pass => with_st s (fst (remove_request (xs_st s) w pass))
   | XPhase1 w => with_st s (remove_phase1 (xs_st s) w)
   | XRound w => with_st s (fst (remove_round fx cap (xs_node s) (find_tx (xs_all s)) (xs_st s) w))
@@ -223,7 +242,7 @@ Definition xstep (fx : fixes) (p : params) (B cap : Z) (s : xsim) (e : xevent) :
       let st0 := {| x_w := x_w (xs_st s); x_keys := x_keys (xs_st s); x_pass := x_pass (xs_st s);
                     x_status := x_status (xs_st s); x_brecs := x_brecs (xs_st s); x_balrow := x_balrow (xs_st s);
                     x_ugame := x_ugame (xs_st s); x_dead := []; x_p1 := [] |} in
-      match catchup fx p (xs_node s) st0 (length (xs_node s)) with
+      match start_sync fx p (xs_node s) st0 with
       | XOk st' => {| xs_node := xs_node s; xs_st := st'; xs_all := xs_all s; xs_crashed := false |}
       | XErr => {| xs_node := xs_node s; xs_st := st0; xs_all := xs_all s; xs_crashed := false |}
       | XPanic => {| xs_node := xs_node s; xs_st := st0; xs_all := xs_all s; xs_crashed := true |}
